@@ -4,8 +4,10 @@ package main
 import (
 	"context"
 	"fmt"
+	"runtime"
 	"sort"
 	"strings"
+	"sync"
 
 	"github.com/cloudwego/hertz/pkg/app"
 	"github.com/cloudwego/hertz/pkg/common/config"
@@ -35,7 +37,8 @@ func main() {
 		Floors: func(t string) map[string]int64 {
 			return map[string]int64{"probes": 100000, "route_sets_accepted": 1000, "registration_orders": 4000}
 		},
-		Work: work,
+		Procs: 8, // the concurrent family needs goroutines that really overlap
+		Work:  work,
 	})
 }
 
@@ -460,7 +463,85 @@ func checkSet(w *mon.W, c *mon.Case, routes []string, exhaustiveFamily bool) {
 	}
 }
 
+// concurrentFamily: one engine, many goroutines dispatching at once (as connections do).
+// Every handler reads its parameters, yields, reads them again and compares both readings
+// with the values its own request path carries: the router's lookup state must not be
+// shared between requests in flight.
+func concurrentFamily(w *mon.W) {
+	w.Cases("concurrent", uint64(w.Pick(40, 1500)), func(c *mon.Case) {
+		e := route.NewEngine(rig.Options(nil))
+		var mu sync.Mutex
+		bad := ""
+		h := func(cc context.Context, ctx *app.RequestContext) {
+			want := string(ctx.Request.Header.Peek("X-Want"))
+			read := func() string {
+				var vs []string
+				for _, p := range ctx.Params {
+					vs = append(vs, p.Key+"="+p.Value)
+				}
+				return strings.Join(vs, "|")
+			}
+			first := strings.Clone(read())
+			for i := 0; i < 3; i++ {
+				runtime.Gosched()
+			}
+			second := read()
+			if first != want || second != want {
+				mu.Lock()
+				if bad == "" {
+					bad = fmt.Sprintf("request %q: parameters read as %q at handler entry and %q a moment later, want %q", ctx.Request.URI().Path(), first, second, want)
+				}
+				mu.Unlock()
+			}
+		}
+		e.GET("/files/*path", h)
+		e.GET("/u/:id/f/*rest", h)
+		e.GET("/s/:a/:b", h)
+		e.POST("/files/*path", h)
+		var wg sync.WaitGroup
+		G := 4 + c.R.Intn(8)
+		for g := 0; g < G; g++ {
+			wg.Add(1)
+			r := c.R.Fork()
+			go func(g int) {
+				defer wg.Done()
+				val := func() string { return fmt.Sprintf("g%d-%s", g, strings.Repeat(string(rune('a'+g)), 1+r.Intn(20))) }
+				for k := 0; k < 200; k++ {
+					var path, want string
+					switch r.Intn(3) {
+					case 0:
+						v := val() + "/" + val()
+						path, want = "/files/"+v, "path="+v
+					case 1:
+						a, b := val(), val()+"/x"
+						path, want = "/u/"+a+"/f/"+b, "id="+a+"|rest="+b
+					default:
+						a, b := val(), val()
+						path, want = "/s/"+a+"/"+b, "a="+a+"|b="+b
+					}
+					ctx := e.NewContext()
+					ctx.Request.SetRequestURI(path)
+					ctx.Request.Header.SetMethod(r.Str("GET", "GET", "POST"))
+					if string(ctx.Request.Header.Method()) == "POST" && !strings.HasPrefix(path, "/files/") {
+						ctx.Request.Header.SetMethod("GET")
+					}
+					ctx.Request.Header.Set("X-Want", want)
+					ctx.Request.SetHost("h")
+					e.ServeHTTP(context.Background(), ctx)
+					w.Count("concurrent_dispatches", 1)
+				}
+			}(g)
+		}
+		wg.Wait()
+		if bad != "" {
+			c.Violate("concurrent-params", "%d goroutines dispatching on one engine: %s", G, bad)
+		}
+		w.Shape(mon.Hash64("concurrent", c.I))
+	})
+}
+
 func work(w *mon.W) {
+	concurrentFamily(w)
 	uni := universe()
 	nu := uint64(len(uni))
 	// exhaustive: all singletons, pairs (and triples) of the depth<=2 universe
